@@ -149,6 +149,11 @@ Definition map_step_ok (c : client) (e pc : N) : Prop :=
   forall cid x, find (has_pre pc) (cl_ents c) = Some (cid, x) -> ce_alive x = true ->
     ce_marker x = false /\ al_get cid (cl_c2s c) = None.
 
+(* the state to which the mappings of an update message are applied: since the repair of defect D30 the despawn
+   records of the message come first *)
+Definition maps_pre (c : client) (u : update_msg) : client :=
+  fold_left apply_despawn (u_despawns u) (set_upd_tick c (u_tick u)).
+
 (* ... for the mappings of a message, applied in order *)
 Fixpoint maps_ok (c : client) (maps : list (N * N)) : Prop :=
   match maps with
